@@ -5,7 +5,7 @@
 From Fiddle Require Import PyBase PySlice Sig ArgStore PyCall Heap Traverse Build Lang C02Check.
 
 Record case := mkcase {
-  c_env : sigenv; c_args : list ref; c_prog : program;
+  c_env : sigenv; c_arg_heap : heap; c_args : list ref; c_prog : program;
   c_cfg_heap : heap; c_cfg_root : option ref;       (* as_buildable( *args ) *)
   c_py_heap : heap; c_py_root : option ref          (* fn( *args ) *)
 }.
@@ -21,15 +21,15 @@ Definition fuel_of (p : program) : nat := 64.
 
 Definition check_case (c : case) : bool :=
   let e := c_env c in
-  let '(hc, rc) := run_program e true (fuel_of (c_prog c)) (c_args c) [] (c_prog c) in
-  let '(hp, rp) := run_program e false (fuel_of (c_prog c)) (c_args c) [] (c_prog c) in
+  let '(hc, rc) := run_program e true (fuel_of (c_prog c)) (c_args c) (c_arg_heap c) (c_prog c) in
+  let '(hp, rp) := run_program e false (fuel_of (c_prog c)) (c_args c) (c_arg_heap c) (c_prog c) in
   iso_roots hc rc (c_cfg_heap c) (c_cfg_root c)
   && iso_roots hp rp (c_py_heap c) (c_py_root c)
-  (* C11 on this case: build (eval_cfg p) ~ eval_py p *)
+  (* C11 on this case: build (eval_cfg p) ~ eval_py p, partial objects up to argument binding *)
   && match rc, rp with
      | Some rcfg, Some rpy =>
          match mrun e hc (build_node e no_fail) rcfg with
-         | (s, inl rb) => iso_b (out s) hp rb rpy
+         | (s, inl rb) => iso_b (norm_heap e (out s)) (norm_heap e hp) rb rpy
          | _ => false
          end
      | None, None => true
@@ -37,5 +37,5 @@ Definition check_case (c : case) : bool :=
      end.
 
 Definition explain_case (c : case) :=
-  (run_program (c_env c) true 64 (c_args c) [] (c_prog c),
-   run_program (c_env c) false 64 (c_args c) [] (c_prog c)).
+  (run_program (c_env c) true 64 (c_args c) (c_arg_heap c) (c_prog c),
+   run_program (c_env c) false 64 (c_args c) (c_arg_heap c) (c_prog c)).
